@@ -219,10 +219,12 @@ class Parser:
         elif next_tag is _imaginary:
             return complex(pstate.next_str_and_advance())
         elif next_tag is _true:
-            assert pstate.next_str_and_advance() == "True"
+            next_str = pstate.next_str_and_advance()
+            assert next_str == "True"
             return True
         elif next_tag is _false:
-            assert pstate.next_str_and_advance() == "False"
+            next_str = pstate.next_str_and_advance()
+            assert next_str == "False"
             return False
         elif next_tag is _identifier:
             return primitives.Variable(pstate.next_str_and_advance())
